@@ -3,7 +3,7 @@ CONSTANTS
   MaxW = 4
   Keys = {1, 2, 3}
   MaxJ = 9
-  MaxInc = 14
+  MaxInc = 20
   LbBig = 1000000
   FixRetire = FALSE
 CONSTRAINT Progress
